@@ -7,6 +7,7 @@ import AsModel.SExp
 import AsModel.Render
 import AsModel.RustPrims
 import AsModel.Exec
+import AsModel.Theorems.C16
 /-!
 Line-protocol driver: one request per stdin line, one answer per stdout line.
 The Rust harnesses answer the same lines by calling the real code; the check
@@ -144,6 +145,9 @@ def answer (line : String) : String :=
     match unhex src, a.toNat?, b.toNat? with
     | some s, some a, some b => if rendererOk s.toList a b then "ok" else "panic"
     | _, _, _ => "bad-op"
+  | ["resolve", d, r] =>
+    let c := AsModel.Generated.resolve AsModel.Generated.wiring ⟨d == "1", r == "1"⟩
+    s!"runtime={c.runtimeRegex} macro={c.macroRegex}"
   | ["abspath", m, f] =>
     match unhex m, unhex f with
     | some m, some f => hex (absoluteSourcePath m f)
